@@ -297,6 +297,13 @@ class Interp:
             raise NotPure("unary " + n["op"])
         if k == "cast":
             return self.ev(n["e"], env, depth)
+        if k == "binary" and n["op"] in ("+=", "-=", "*=", "/="):
+            hook = self.extern.get("binop")
+            if hook is None:
+                raise NotPure("arithmetic %s in comparison-only code" % n["op"])
+            cur = self.ev(n["l"], env, depth)
+            self.assign_place(n["l"], hook(n["op"][0], cur, self.ev(n["r"], env, depth)), env, depth)
+            return None
         if k == "binary":
             op = n["op"]
             if op == "&&":
@@ -437,6 +444,12 @@ class Interp:
             is_err = isinstance(recv, tuple) and len(recv) == 2 and recv[0] == "err"
             if is_err and m in ("map", "and_then", "inspect") and len(args) == 1:
                 return recv                  # Result::map / and_then leave an Err untouched
+            if is_err and m == "map_or" and len(args) == 2:
+                return args[0]
+            if is_err and m in ("is_ok", "is_err") and not args:
+                return m == "is_err"
+            if is_opt and recv is not None and m in ("is_ok", "is_err") and not args:
+                return m == "is_ok"
             if is_err and m == "map_err" and len(args) == 1 and isinstance(args[0], tuple) and args[0][0] == "closure":
                 return ("err", self.apply_closure(args[0], [recv[1]], depth))
             if is_opt and recv is not None and m == "map_err" and len(args) == 1:
